@@ -380,7 +380,42 @@ def frontend_correspondence(ctx):
                           {"oracle": "frontend", "kind": kind, "order": order, "noisy": noisy, "parallel": parallel})
 
 
+def wide_bond_oracle(args):
+    """bond entropy and Schmidt spectrum of a cut that carries more Schmidt values than any fixed-length report (two sites of a large
+    local dimension, bond dimension above 500) vs the dense singular values"""
+    from mqt.yaqs.core.data_structures.networks import MPS
+    from mqt.yaqs.core.data_structures.simulation_parameters import Observable, StrongSimParams
+
+    rng = np.random.default_rng(args["seed"])
+    d, chi = args["d"], args["chi"]
+    tens = [rng.normal(size=(d, 1, chi)) + 1j * rng.normal(size=(d, 1, chi)), rng.normal(size=(d, chi, 1)) + 1j * rng.normal(size=(d, chi, 1))]
+    mps = MPS(2, tensors=tens, physical_dimensions=[d, d])
+    mps.normalize("B")
+    theta = np.einsum("plk,qkr->pq", mps.tensors[0], mps.tensors[1])
+    sv = np.linalg.svd(theta, compute_uv=False)
+    pr = sv**2 / np.sum(sv**2)
+    pr = pr[pr > 1e-300]
+    want = float(-np.sum(pr * np.log(pr)))
+    o = Observable("entropy", [0, 1])
+    p = StrongSimParams([o], show_progress=False)
+    res = np.zeros((1, 1), dtype=object)
+    mps.evaluate_observables(p, res, 0)
+    got = float(np.real(res[0, 0]))
+    if abs(got - want) > 1e-9:
+        return f"bond entropy of a cut with {int(np.sum(sv > 1e-12))} Schmidt values: got {got:.12f}, dense value {want:.12f}"
+    return None
+
+
 def search(ctx):
+    for a in (dict(seed=int(ctx.rng.integers(0, 2**31)), d=560, chi=530), dict(seed=int(ctx.rng.integers(0, 2**31)), d=40, chi=33)):
+        try:
+            why = wide_bond_oracle(a)
+        except Exception as e:  # noqa: BLE001
+            why = f"evaluate_observables raised {type(e).__name__}: {e}"
+        ctx.case(nontrivial_key=("wide-bond", a["d"], a["chi"]))
+        ctx.count("wide_bond_entropies")
+        if why:
+            ctx.violation("entropy", why, {"oracle": "wide-bond", "args": a})
     for k in range(ctx.scale(60, 1500)):
         a = dict(seed=int(ctx.rng.integers(0, 2**31)), L=int(ctx.rng.integers(2, 7)), chi=int(ctx.rng.integers(1, 5)))
         why = value_oracle(a)
@@ -407,6 +442,8 @@ def replay(ctx, data):
         return f"observables hold foreign rows: {bad[:3]}" if bad else None
     if rp.get("oracle") == "value":
         return value_oracle(rp["args"])
+    if rp.get("oracle") == "wide-bond":
+        return wide_bond_oracle(rp["args"])
     if rp.get("oracle") == "attr":
         return attribution_oracle(rp["args"])
     return "re-run the check: " + "; ".join(b["what"] for b in data.get("broken", []))
